@@ -292,7 +292,7 @@ def m_maxmin(I, path, args):
 
 @R.model(r'^std::cmp::Ordering::(then|then_with|reverse|is_eq|is_ne|is_lt|is_gt|is_le|is_ge)$')
 def m_ordering(I, path, args):
-    meth = path.split('::')[-1].split('<')[0]
+    meth = strip_generics(path).split('::')[-1]
     o = deref(args[0])
     if meth == 'then':
         return o if o.variant != 1 else args[1]
